@@ -297,15 +297,14 @@ theorem filledValues_regular {ι : Type} (K : LeafClass) (sh : Option (List Nat)
       simp only [Option.getD_none, determineDefaultValue, hf]
       exact ⟨hdef.1.trans hp0.1, hdef.2⟩
 
-/-- **dict layer, regular case**: one array is built, element `i` is marked missing iff it lacks the
-property, and a present entry denotes exactly the given value (same kind) -/
-theorem dictPropToArr_regular {ι : Type} (K : LeafClass) (sh : Option (List Nat)) (data : List (ι × Attrs))
-    (name : String) (h : RegularVals K sh (present data name)) :
+/-- from "the array holds the filled values row by row and every row reads back as its value" to
+the statement about elements: marked missing iff absent, present entries read back exactly -/
+theorem dictPropToArr_of_rows {ι : Type} (data : List (ι × Attrs)) (name : String) (dt : Dtype) (vl : Bool)
+    (hdt : valuesToArr (filledValues data name) = .ok (dt, vl, (filledValues data name).map pyRow))
+    (hback : ∀ x ∈ filledValues data name, rowToPy vl (pyRow x) = x) :
     ∃ c, dictPropToArr data name = .ok c ∧ c.WF data.length ∧
       ∀ i (hi : i < data.length), c.entry i = (data[i]).2.lookup name := by
-  obtain ⟨K', sh', hreg⟩ := filledValues_regular K sh data name h
-  obtain ⟨dt, hdt⟩ := valuesToArr_regular K' sh' _ hreg
-  refine ⟨{ dtype := dt, varlen := false, rows := (filledValues data name).map pyRow,
+  refine ⟨{ dtype := dt, varlen := vl, rows := (filledValues data name).map pyRow,
             missing := if (missingMask data name).any id then some (missingMask data name) else none },
           by simp only [dictPropToArr, hdt], ?_, ?_⟩
   · constructor
@@ -318,8 +317,6 @@ theorem dictPropToArr_regular {ι : Type} (K : LeafClass) (sh : Option (List Nat
   · intro i hi
     have hrow : ((filledValues data name).map pyRow)[i]? = some (pyRow ((data[i].2.lookup name).getD (determineDefaultValue data name))) := by
       simp [filledValues, hi]
-    have hshape : ∀ x ∈ filledValues data name, pyShape x ≠ some [] := by
-      intro x hx; rw [(hreg.2 x hx).1]; exact hreg.1
     have hx : (data[i].2.lookup name).getD (determineDefaultValue data name) ∈ filledValues data name :=
       List.mem_map.2 ⟨data[i], List.getElem_mem hi, rfl⟩
     simp only [Col.entry, hrow]
@@ -332,10 +329,9 @@ theorem dictPropToArr_regular {ι : Type} (K : LeafClass) (sh : Option (List Nat
       | none => simp
       | some v =>
         simp only [Option.isNone_some, if_true, Option.getD_some]
-        have hs : pyShape v ≠ some [] := by
-          have := hshape _ hx
-          simpa [hl] using this
-        rw [rowToPy_pyRow v hs]
+        have := hback _ hx
+        simp only [hl, Option.getD_some] at this
+        rw [this]
     · simp only [hany]
       have hsome : (data[i].2.lookup name).isNone = false := by
         have h1 : ¬ ∃ b ∈ missingMask data name, b = true := by simpa [List.any_eq_true] using hany
@@ -347,13 +343,181 @@ theorem dictPropToArr_regular {ι : Type} (K : LeafClass) (sh : Option (List Nat
       | none => simp [hl] at hsome
       | some v =>
         simp only [Option.getD_some]
-        have hs : pyShape v ≠ some [] := by
-          have := hshape _ hx
-          simpa [hl] using this
-        rw [rowToPy_pyRow v hs]
+        have := hback _ hx
+        simp only [hl, Option.getD_some] at this
+        rw [this]
         simp
 
+/-- **dict layer, regular case**: one array is built, element `i` is marked missing iff it lacks the
+property, and a present entry denotes exactly the given value (same kind) -/
+theorem dictPropToArr_regular {ι : Type} (K : LeafClass) (sh : Option (List Nat)) (data : List (ι × Attrs))
+    (name : String) (h : RegularVals K sh (present data name)) :
+    ∃ c, dictPropToArr data name = .ok c ∧ c.WF data.length ∧
+      ∀ i (hi : i < data.length), c.entry i = (data[i]).2.lookup name := by
+  obtain ⟨K', sh', hreg⟩ := filledValues_regular K sh data name h
+  obtain ⟨dt, hdt⟩ := valuesToArr_regular K' sh' _ hreg
+  apply dictPropToArr_of_rows data name dt false hdt
+  intro x hx
+  apply rowToPy_pyRow
+  rw [(hreg.2 x hx).1]; exact hreg.1
 
+/-! ### ragged (variable-length) list properties -/
+
+/-- numpy dtype of a (non-empty) list of leaves of one class -/
+def LeafClass.dtype : LeafClass → Dtype
+  | .bool => .bool | .int64 => .i64 | .uint64 => .u64 | .float => .f64 | .str => .str
+
+/-- the values of a ragged (variable-length) list property: lists of one rank `r ≥ 1` with leaves
+of one class `K` (not uint64: known finding `C03:ragged-int-values-ge-2^63`), each list having the
+class's numpy dtype on its own — i.e. non-empty, except that an empty list is a float64 array —
+and, for strings, the same maximal string length `w` (otherwise the pinned `_get_common_type_dims`
+depends on the order of the elements: defect D8 of property C11) -/
+def RaggedVals (K : LeafClass) (r w : Nat) (vals : List PyVal) : Prop :=
+  K ≠ .uint64 ∧ 1 ≤ r ∧ ∀ x ∈ vals, ∃ sh fl, x = .arr sh fl ∧ sh.length = r ∧
+    (∀ v ∈ fl, K.holds v = true) ∧ (fl ≠ [] ∨ K = .float) ∧ strWidth x = w
+
+theorem elemDtype_of_class (K : LeafClass) (hK : K ≠ .uint64) (sh : List Nat) (fl : List Val)
+    (h : ∀ v ∈ fl, K.holds v = true) (hne : fl ≠ [] ∨ K = .float) :
+    elemDtype (.arr sh fl) = K.dtype := by
+  unfold elemDtype
+  simp only [pyLeaves]
+  by_cases hfl : fl = []
+  · subst hfl
+    rcases hne with h | h
+    · exact absurd rfl h
+    · subst h; rfl
+  · apply joinAll_const _ _ (by simpa using hfl)
+    intro x hx
+    obtain ⟨v, hv, rfl⟩ := List.mem_map.1 hx
+    have := h v hv
+    cases K <;> cases v <;> simp_all [LeafClass.holds, discover, LeafClass.dtype]
+
+theorem castTo_of_class (K : LeafClass) (v : Val) (h : K.holds v = true) : castTo K.dtype v = .ok v := by
+  cases K <;> cases v <;> simp_all [LeafClass.holds, castTo, LeafClass.dtype]
+
+theorem canCast_self (d : Dtype) : canCast d d = true := by simp [canCast]
+
+theorem commonTypeDims_uniform (d : Dtype) (w r : Nat) (x : PyVal) (xs : List PyVal)
+    (h : ∀ y ∈ x :: xs, elemDtype y = d ∧ strWidth y = w ∧ (pyRow y).1.length = r) :
+    commonTypeDims (x :: xs) = .ok (d, w, r) := by
+  have hx := h x (by simp)
+  simp only [commonTypeDims, hx.1, hx.2.1, hx.2.2]
+  have hxs : ∀ y ∈ xs, elemDtype y = d ∧ strWidth y = w ∧ (pyRow y).1.length = r :=
+    fun y hy => h y (by simp [hy])
+  clear h hx
+  induction xs with
+  | nil => rfl
+  | cons y t ih =>
+    have hy := hxs y (by simp)
+    simp only [List.foldlM_cons, hy.1, hy.2.1, hy.2.2, canCast_self, promote_self, Nat.max_self, Nat.le_refl,
+      implies_true, and_self, if_true, bind, Except.bind]
+    exact ih (fun z hz => hxs z (by simp [hz]))
+
+theorem constructVarLenProps_ragged (K : LeafClass) (r w : Nat) (vals : List PyVal) (hne : vals ≠ [])
+    (h : RaggedVals K r w vals) :
+    constructVarLenProps vals = .ok (K.dtype, vals.map pyRow) := by
+  obtain ⟨hK, hr, hall⟩ := h
+  cases hv : vals with
+  | nil => exact absurd hv hne
+  | cons x xs =>
+    have hfacts : ∀ y ∈ x :: xs, elemDtype y = K.dtype ∧ strWidth y = w ∧ (pyRow y).1.length = r := by
+      intro y hy
+      obtain ⟨sh, fl, rfl, hlen, hleaves, hne', hw⟩ := hall y (by rw [hv]; exact hy)
+      exact ⟨elemDtype_of_class K hK sh fl hleaves hne', hw, by simpa [pyRow] using hlen⟩
+    have hctd := commonTypeDims_uniform K.dtype w r x xs hfacts
+    have hd : K.dtype ≠ .u64 := by cases K <;> simp_all [LeafClass.dtype]
+    have hrows : mapE (varLenRow K.dtype r) (x :: xs) = .ok ((x :: xs).map pyRow) := by
+      apply mapE_ok_map
+      intro y hy
+      obtain ⟨sh, fl, rfl, hlen, hleaves, _, _⟩ := hall y (by rw [hv]; exact hy)
+      have hc : castRow K.dtype (sh, fl) = .ok (sh, fl) :=
+        castRow_id _ _ (fun v hv' => castTo_of_class K v (hleaves v hv'))
+      simp only [varLenRow, pyRow, hc, hlen, Nat.sub_self, List.replicate_zero, List.nil_append]
+    simp only [constructVarLenProps, hctd, hd, if_false, hrows]
+
+
+
+theorem dictPropToArr_ragged {ι : Type} (K : LeafClass) (r w : Nat) (data : List (ι × Attrs))
+    (name : String) (h : RaggedVals K r w (present data name)) :
+    ∃ c, dictPropToArr data name = .ok c ∧ c.WF data.length ∧
+      ∀ i (hi : i < data.length), c.entry i = (data[i]).2.lookup name := by
+  obtain ⟨hK, hr, hall⟩ := h
+  cases hf : data.findSome? (fun d => d.2.lookup name) with
+  | none =>
+    -- nobody has the property: the regular case with no present value
+    have hp : present data name = [] := by
+      unfold present
+      rw [List.filterMap_eq_nil_iff]
+      intro d hd
+      simpa using List.findSome?_eq_none_iff.1 hf d hd
+    exact dictPropToArr_regular .int64 none data name (by rw [hp]; exact ⟨by simp, by simp⟩)
+  | some v0 =>
+    obtain ⟨d0, hd0, hv0⟩ := List.exists_of_findSome?_eq_some hf
+    have hv0p : v0 ∈ present data name := mem_present data name d0 v0 hd0 hv0
+    -- the filled values are the present ones and copies of the first present one
+    have hfilled : ∀ x ∈ filledValues data name, x ∈ present data name := by
+      intro x hx
+      obtain ⟨d, hd, rfl⟩ := List.mem_map.1 hx
+      cases hl : d.2.lookup name with
+      | some v => simpa using mem_present data name d v hd hl
+      | none =>
+        obtain ⟨sh, fl, rfl, _⟩ := hall v0 hv0p
+        simpa [determineDefaultValue, hf, defaultFor] using hv0p
+    have hne : filledValues data name ≠ [] := by
+      intro he
+      have : d0 ∈ data := hd0
+      have hlen : (filledValues data name).length = data.length := by simp [filledValues]
+      rw [he] at hlen
+      have : data = [] := List.eq_nil_of_length_eq_zero hlen.symm
+      rw [this] at hd0; simp at hd0
+    cases hvals : filledValues data name with
+    | nil => exact absurd hvals hne
+    | cons x xs =>
+      by_cases hsame : (filledValues data name).all (fun y => pyShape y = pyShape x) = true
+      · -- all lists happen to have one shape: the regular case
+        obtain ⟨sh0, fl0, hx0, hlen0, _⟩ := hall x (hfilled x (by rw [hvals]; simp))
+        have hreg : RegularVals K (some sh0) (present data name) := by
+          refine ⟨?_, ?_⟩
+          · intro he
+            have : sh0 = [] := by simpa using he
+            rw [this] at hlen0; simp at hlen0; omega
+          · intro y hy
+            obtain ⟨sh, fl, rfl, _, hleaves, _, _⟩ := hall y hy
+            -- y occurs among the filled values
+            have hyf : PyVal.arr sh fl ∈ filledValues data name := by
+              obtain ⟨d, hd, hl⟩ := List.mem_filterMap.1 hy
+              exact List.mem_map.2 ⟨d, hd, by simp [hl]⟩
+            have := (List.all_eq_true.1 hsame) _ hyf
+            simp only [decide_eq_true_eq] at this
+            rw [this, hx0]
+            exact ⟨rfl, by simpa [pyLeaves] using hleaves⟩
+        exact dictPropToArr_regular K (some sh0) data name hreg
+      · -- genuinely ragged: one variable-length property
+        have hrag : RaggedVals K r w (filledValues data name) :=
+          ⟨hK, hr, fun y hy => hall y (hfilled y hy)⟩
+        have hcv := constructVarLenProps_ragged K r w _ hne hrag
+        have hdt : valuesToArr (filledValues data name) = .ok (K.dtype, true, (filledValues data name).map pyRow) := by
+          conv => lhs; unfold valuesToArr
+          rw [hvals] at hsame hcv ⊢
+          simp only [hsame, Bool.false_eq_true, if_false, hcv]
+        apply dictPropToArr_of_rows data name K.dtype true hdt
+        intro y hy
+        obtain ⟨sh, fl, rfl, _⟩ := hall y (hfilled y hy)
+        simp [pyRow, rowToPy_true]
+
+
+/-- **the documented domain of one property**: its present values are *regular* (all scalars, or
+all lists of one shape, leaves of one class) or *ragged* (lists of one rank and one class) -/
+def PropDomain (vals : List PyVal) : Prop :=
+  (∃ K sh, RegularVals K sh vals) ∨ (∃ K r w, RaggedVals K r w vals)
+
+theorem dictPropToArr_domain {ι : Type} (data : List (ι × Attrs)) (name : String)
+    (h : PropDomain (present data name)) :
+    ∃ c, dictPropToArr data name = .ok c ∧ c.WF data.length ∧
+      ∀ i (hi : i < data.length), c.entry i = (data[i]).2.lookup name := by
+  rcases h with ⟨K, sh, h⟩ | ⟨K, r, w, h⟩
+  · exact dictPropToArr_regular K sh data name h
+  · exact dictPropToArr_ragged K r w data name h
 
 /-! ### all properties -/
 
@@ -406,25 +570,23 @@ theorem dictPropsToArr_ok {ι : Type} (data : List (ι × Attrs)) (names : List 
       · exact hc
       · exact hall p hp
 
-/-- **dict layer**: for property names that are regular on `data` and cover every key that occurs,
+/-- **dict layer**: for property names that are in the domain on `data` and cover every key that occurs,
 the property list denotes exactly the given dicts -/
 theorem dictPropsToArr_spec {ι : Type} (data : List (ι × Attrs)) (names : List String)
-    (hreg : ∀ n ∈ names, ∃ K sh, RegularVals K sh (present data n))
+    (hreg : ∀ n ∈ names, PropDomain (present data n))
     (hcover : ∀ d ∈ data, ∀ n v, d.2.lookup n = some v → n ∈ names) :
     ∃ props, dictPropsToArr data names = .ok props ∧ props.map (·.1) = names ∧
       (∀ p ∈ props, p.2.WF data.length) ∧
       ∀ k (hk : k < data.length) name, memAttr props k name = (data[k]).2.lookup name := by
   have hok : ∀ n ∈ names, ∃ c, dictPropToArr data n = .ok c := by
     intro n hn
-    obtain ⟨K, sh, hr⟩ := hreg n hn
-    obtain ⟨c, hc, _⟩ := dictPropToArr_regular K sh data n hr
+    obtain ⟨c, hc, _⟩ := dictPropToArr_domain data n (hreg n hn)
     exact ⟨c, hc⟩
   obtain ⟨props, hprops, hnames, hall⟩ := dictPropsToArr_ok data names hok
   have hfacts : ∀ p ∈ props, p.2.WF data.length ∧ ∀ i (hi : i < data.length), p.2.entry i = (data[i]).2.lookup p.1 := by
     intro p hp
     have hn : p.1 ∈ names := by rw [← hnames]; exact List.mem_map.2 ⟨p, hp, rfl⟩
-    obtain ⟨K, sh, hr⟩ := hreg p.1 hn
-    obtain ⟨c, hc, hwf, hent⟩ := dictPropToArr_regular K sh data p.1 hr
+    obtain ⟨c, hc, hwf, hent⟩ := dictPropToArr_domain data p.1 (hreg p.1 hn)
     have : c = p.2 := by
       have h2 := hall p hp
       rw [hc] at h2
